@@ -38,6 +38,8 @@ import (
 	evm "github.com/tharsis/ethermint/x/evm/types"
 
 	erc20contracts "github.com/teleport-network/teleport/syscontracts/erc20"
+	stakingcontract "github.com/teleport-network/teleport/syscontracts/staking"
+	agentcontract "github.com/teleport-network/teleport/syscontracts/xibc_agent"
 	endpointcontract "github.com/teleport-network/teleport/syscontracts/xibc_endpoint"
 	packetcontract "github.com/teleport-network/teleport/syscontracts/xibc_packet"
 	xibctmtypes "github.com/teleport-network/teleport/x/xibc/clients/light-clients/tendermint/types"
@@ -62,6 +64,8 @@ type pktChain struct {
 	erc20 common.Address
 	// registry mirror: relayer address string -> chains it is registered for
 	reg map[string][]string
+	// relayer address string -> chain -> the address registered for that chain ("address on the other chain")
+	regAddr map[string]map[string]string
 }
 
 type pktSent struct {
@@ -69,6 +73,8 @@ type pktSent struct {
 	p        packettypes.Packet
 	src, dst *pktChain
 	sentAt   int64 // block height of the source chain in which it was committed
+	mech     string // how the destination execution is built (see pktCallSpec)
+	cbErr    bool   // by construction CallPacket("onRecvPacket") returns an error on the destination
 	// relay progress known to the generator
 	recvd    bool
 	recvMsg  *pktRecvRec
@@ -95,6 +101,7 @@ type pktWorld struct {
 	ackEnc map[string]bool
 	hist   []string
 	sent   []*pktSent
+	byEnc  map[string]*pktSent // canonical packet bytes -> sent packet
 	// oracle state
 	accepted map[string]int // chain|receiptkey -> number of accepted receives
 	ackedN   map[string]int // chain|commitkey -> number of accepted acknowledgements
@@ -108,14 +115,27 @@ func (w *pktWorld) op(op, out string) {
 // ---------------------------------------------------------------------------------------------
 // world construction
 
-func pktNewWorld(t *testing.T, r *Rec) *pktWorld {
+// pktMixedNames: XIBC chain names used in the mixed-case histories (valid per host.IsValidID): one mixed-case
+// name and two names that differ only in case — three distinct counterparties.
+var pktMixedNames = []string{"Teleport-A", "abc", "Abc"}
+
+func pktHasUpper(s string) bool { return strings.ToLower(s) != s }
+
+func pktNewWorld(t *testing.T, r *Rec, mixedCase bool) *pktWorld {
 	w := &pktWorld{t: t, r: r, byName: map[string]*pktChain{}, pktIDs: map[string]string{}, ackIDs: map[string]string{},
-		ackEnc: map[string]bool{}, accepted: map[string]int{}, ackedN: map[string]int{}}
+		ackEnc: map[string]bool{}, byEnc: map[string]*pktSent{}, accepted: map[string]int{}, ackedN: map[string]int{}}
 	w.coord = xibctesting.NewCoordinator(t, 3)
 	w.op("reset", "ok")
 	for i := 0; i < 3; i++ {
 		tc := w.coord.GetChain(xibctesting.GetChainID(i))
-		c := &pktChain{tc: tc, name: tc.ChainID, prev: map[string]string{}, track: map[string]*pktChain{}, reg: map[string][]string{}}
+		c := &pktChain{tc: tc, name: tc.ChainID, prev: map[string]string{}, track: map[string]*pktChain{}, reg: map[string][]string{}, regAddr: map[string]map[string]string{}}
+		if mixedCase {
+			// the XIBC chain name is independent of the Tendermint chain id (which stays tc.ChainID): rename the chain
+			// in the client keeper and in the packet contract before anything else happens
+			c.name = pktMixedNames[i]
+			tc.App.XIBCKeeper.ClientKeeper.SetChainName(tc.GetContext(), c.name)
+			tc.SetPacketChainName()
+		}
 		c.accts = append(c.accts, pktAcct{priv: tc.SenderPrivKey.(*ethsecp256k1.PrivKey), addr: tc.SenderAcc})
 		w.chains = append(w.chains, c)
 		w.byName[c.name] = c
@@ -195,6 +215,10 @@ func (w *pktWorld) register(c *pktChain, acct int, chains []string) {
 	}
 	c.tc.App.XIBCKeeper.ClientKeeper.RegisterRelayers(c.tc.GetContext(), addr, chains, addrs)
 	c.reg[addr] = chains
+	c.regAddr[addr] = map[string]string{}
+	for i := len(chains) - 1; i >= 0; i-- { // GetRelayerAddressOnOtherChain takes the first matching chain
+		c.regAddr[addr][chains[i]] = addrs[i]
+	}
 	w.op(fmt.Sprintf("relayer %s %s %d%s", hxs(c.name), hxs(addr), len(chains), sb.String()), "ok")
 }
 
@@ -532,16 +556,64 @@ func pktSentPackets(rsp *evm.MsgEthereumTxResponse) [][]byte {
 	return out
 }
 
-// send performs a base-token crossChainCall from S of src to dstName (amount, optional call data) and records
-// the op. Returns the sent packet (nil if the transaction failed).
-func (w *pktWorld) send(src *pktChain, dstName string, amount int64, contract string, callData []byte, feeOpt uint64) *pktSent {
+// pktCallSpec describes the destination execution of a packet.
+//   mech: n (transfer only) | eoa (call to an address without code) | garbage (garbage call to a real contract: result
+//   code 3) | evm-revert (malformed contract address: Execute reverts the whole onRecvPacket call => CallPacket error)
+//   | baddr (malformed receiver string in the transfer data) | hook-staking (EVM run succeeds, the staking hook fails
+//   afterwards: invalid validator => CallPacket error) | hook-agent (call data makes the agent contract forward to a
+//   chain for which the destination has no client: SendPacket fails in the post-transaction hook => CallPacket error)
+type pktCallSpec struct {
+	mech     string
+	receiver string
+	contract string
+	call     []byte
+	cbErr    bool
+}
+
+func (w *pktWorld) callSpec(src, dst *pktChain, mech string, rnd func([]byte)) pktCallSpec {
+	cs := pktCallSpec{mech: mech, receiver: strings.ToLower(src.tc.SenderAddress.String())}
+	switch mech {
+	case "eoa":
+		cs.contract = strings.ToLower(src.tc.SenderAddress.String())
+		cs.call = make([]byte, 12)
+		rnd(cs.call)
+	case "garbage":
+		cs.contract = strings.ToLower(dst.erc20.String())
+		cs.call = make([]byte, 20)
+		rnd(cs.call)
+	case "evm-revert":
+		cs.contract = "0x12"
+		cs.call, _ = packetcontract.PacketContract.ABI.Pack("chainName")
+		cs.cbErr = true
+	case "baddr":
+		cs.receiver = "not-an-address"
+	case "hook-staking":
+		cs.contract = strings.ToLower(stakingcontract.StakingAddress.String())
+		cs.call, _ = stakingcontract.StakingContract.ABI.Pack("delegate", "notavalidator", big.NewInt(1))
+		cs.cbErr = true
+	case "hook-agent":
+		cs.receiver = strings.ToLower(agentcontract.AgentContractAddress.String())
+		cs.contract = strings.ToLower(agentcontract.AgentContractAddress.String())
+		var err error
+		cs.call, err = agentcontract.AgentContract.ABI.Pack("send", src.tc.SenderAddress, strings.ToLower(src.tc.SenderAddress.String()), "nowhere-1", big.NewInt(0))
+		if err != nil {
+			w.t.Fatal(err)
+		}
+		cs.cbErr = true
+	}
+	return cs
+}
+
+// send performs a base-token crossChainCall from S of src to dstName and records the op.
+// Returns the sent packet (nil if the transaction failed).
+func (w *pktWorld) send(src *pktChain, dstName string, amount int64, cs pktCallSpec, feeOpt uint64) *pktSent {
 	data := packettypes.CrossChainData{
 		DstChain:        dstName,
 		TokenAddress:    common.Address{},
-		Receiver:        strings.ToLower(src.tc.SenderAddress.String()),
+		Receiver:        cs.receiver,
 		Amount:          big.NewInt(amount),
-		ContractAddress: contract,
-		CallData:        callData,
+		ContractAddress: cs.contract,
+		CallData:        cs.call,
 		CallbackAddress: common.Address{},
 		FeeOption:       feeOpt,
 	}
@@ -559,6 +631,7 @@ func (w *pktWorld) send(src *pktChain, dstName string, amount int64, contract st
 	if failed || len(pk) == 0 {
 		// nothing may have changed in the packet stores
 		w.r.Count("send.failed")
+		w.r.Count("send.failed." + cs.mech)
 		if delta != "-" {
 			w.r.Find(Finding{Sig: "pkt:failed-evm-tx-changed-packet-store", What: "a failed crossChainCall changed the xibc packet stores",
 				Ops: append([]string{}, w.hist...), Obs: delta, Req: "-"})
@@ -568,8 +641,15 @@ func (w *pktWorld) send(src *pktChain, dstName string, amount int64, contract st
 	id, p, _ := w.defPacket(pk[0])
 	w.op(fmt.Sprintf("send %s %d %s 1", hxs(src.name), now, id), "ok "+delta)
 	w.r.Count("send.ok")
-	s := &pktSent{bz: pk[0], p: p, src: src, dst: w.byName[dstName], sentAt: src.tc.CurrentHeader.Height}
+	w.r.Count("send.ok." + cs.mech)
+	// the transfer part is executed first: where the base token of src has no binding on the destination (chain 2 for
+	// chain 1, see setupToken) onRecvPacket returns result code 2 before the call data is looked at
+	cbErr := cs.cbErr && (len(p.TransferData) == 0 || !(w.byName[dstName] == w.chains[2] && src == w.chains[1]))
+	s := &pktSent{bz: pk[0], p: p, src: src, dst: w.byName[dstName], sentAt: src.tc.CurrentHeader.Height, mech: cs.mech, cbErr: cbErr}
 	w.sent = append(w.sent, s)
+	if enc, err := p.ABIPack(); err == nil {
+		w.byEnc[string(enc)] = s
+	}
 	return s
 }
 
@@ -660,6 +740,18 @@ func (w *pktWorld) recv(c *pktChain, packet, proof []byte, h clienttypes.Height,
 	delta, before, after := c.observe()
 	out := pktOutcome{ok: ok, delta: delta, before: before, after: after, semantic: sem, genu: gen}
 	cb := "ok:0:-:-"
+	// by construction: is this exactly a packet that was sent with a destination execution that makes CallPacket fail?
+	var sentRec *pktSent
+	if sr, known := w.byEnc[string(enc)]; known && sr.dst == c {
+		sentRec = sr
+	}
+	var wantErrAck []byte
+	if sentRec != nil && sentRec.cbErr {
+		if ra, reg := c.regAddr[signer][p.SrcChain]; reg {
+			wantErrAck = w.defAckEnc(1, []byte{}, "receive packet callback failed", ra, p.FeeOption)
+			cb = "fail"
+		}
+	}
 	if ok && res != nil {
 		for _, ev := range res.Events {
 			if !strings.HasSuffix(ev.Type, "EventWriteAck") {
@@ -679,10 +771,23 @@ func (w *pktWorld) recv(c *pktChain, packet, proof []byte, h clienttypes.Height,
 		if a.ABIDecode(out.ackBz) == nil {
 			// NB: ABIDecode drops FeeOption (tuple component `feeOption` vs json tag `fee_option`); the handler
 			// constructs the ack with packet.FeeOption
-			if a.Code == 1 && a.Message == "receive packet callback failed" && len(a.Result) == 0 {
+			if wantErrAck != nil {
+				// keep "fail": the model must arrive at the error acknowledgement on its own
+			} else if a.Code == 1 && a.Message == "receive packet callback failed" && len(a.Result) == 0 {
 				cb = "fail"
 			} else {
 				cb = fmt.Sprintf("ok:%d:%s:%s", a.Code, hx(a.Result), hxs(a.Message))
+			}
+			if ra, reg := c.regAddr[signer][p.SrcChain]; reg && a.Relayer != ra {
+				w.r.Find(Finding{Sig: "C05:ack-relayer-not-the-registered-address:" + tag, What: "the acknowledgement written by an accepted receive must carry the address the signer registered for the source chain",
+					Ops: append([]string{}, w.hist...), Obs: a.Relayer, Req: ra})
+			}
+			if sentRec != nil {
+				if a.Code == 1 && a.Message == "receive packet callback failed" {
+					w.r.Count("recv.callback-error." + sentRec.mech)
+				} else {
+					w.r.Count(fmt.Sprintf("recv.result.%s.code%d", sentRec.mech, a.Code))
+				}
 			}
 			w.defAckEnc(a.Code, a.Result, a.Message, a.Relayer, p.FeeOption)
 			w.r.Count(fmt.Sprintf("recv.ackcode.%d", a.Code))
@@ -701,6 +806,16 @@ func (w *pktWorld) recv(c *pktChain, packet, proof []byte, h clienttypes.Height,
 		hxs(signer), cb), fmt.Sprintf("%s %s S=%d", r, delta, st))
 	w.r.Count("recv." + tag + "." + r)
 	w.r.Count("recv." + r)
+	if pktHasUpper(p.SrcChain) || pktHasUpper(p.DstChain) {
+		if ok {
+			w.r.Count("recv.accepted.mixed-case-name")
+		} else if strings.HasPrefix(tag, "replay") {
+			w.r.Count("recv.replay.mixed-case-name.err")
+		}
+	}
+	if sentRec != nil && sentRec.cbErr && sentRec.recvd && strings.HasPrefix(tag, "replay") {
+		w.r.Count("recv.replay-of-callback-error." + r)
+	}
 	// ---- oracles (statements of the properties on the implementation's own observations)
 	rk := hx(host.PacketReceiptKey(p.SrcChain, p.DstChain, p.Sequence))
 	if ok {
@@ -722,10 +837,20 @@ func (w *pktWorld) recv(c *pktChain, packet, proof []byte, h clienttypes.Height,
 			w.r.Find(Finding{Sig: "C02:recv-accepted-not-committed:" + tag, What: "receive accepted although the source chain did not commit this packet under this path at the proof height",
 				Ops: append([]string{}, w.hist...), Obs: "accepted", Req: "rejected"})
 		}
+		if p.DstChain == c.name && wantErrAck != nil {
+			ak := hx(host.PacketAcknowledgementKey(p.SrcChain, p.DstChain, p.Sequence))
+			if after[ak] != hx(pktSha(wantErrAck)) {
+				w.r.Find(Finding{Sig: "C05:callback-error-ack-missing-or-wrong:" + sentRec.mech, What: "an accepted receive whose callback fails must store the hash of the code-1 error acknowledgement (registered relayer address, packet fee option)",
+					Ops: append([]string{}, w.hist...), Obs: "acks[key]=" + after[ak] + " delta " + delta, Req: hx(pktSha(wantErrAck))})
+			}
+		}
 		if p.DstChain == c.name {
 			ak := hx(host.PacketAcknowledgementKey(p.SrcChain, p.DstChain, p.Sequence))
 			want := "+" + ak + "=" + hx(pktSha(out.ackBz)) + ",+" + rk + "=01"
-			if _, had := before[ak]; had || out.ackBz == nil || delta != want {
+			if _, wrote := after[ak]; !wrote {
+				w.r.Find(Finding{Sig: "C05:accepted-recv-without-ack:" + tag, What: "an accepted receive addressed to this chain left no acknowledgement in the store",
+					Ops: append([]string{}, w.hist...), Obs: delta, Req: "+" + ak + "=<sha256 of the acknowledgement>"})
+			} else if _, had := before[ak]; had || out.ackBz == nil || delta != want {
 				w.r.Find(Finding{Sig: "C05:recv-did-not-write-exactly-one-ack:" + tag, What: "an accepted receive addressed to this chain must write exactly its receipt and the hash of the acknowledgement it emitted under the packet's ack key",
 					Ops: append([]string{}, w.hist...), Obs: delta, Req: want})
 			}
@@ -763,10 +888,24 @@ func (w *pktWorld) ack(c *pktChain, packet, ackBz, proof []byte, h clienttypes.H
 	if ok {
 		r = "ok"
 	}
-	w.op(fmt.Sprintf("ackm %s %d %s %s %s %s %d %d %s 111", hxs(c.name), now, id, aid, pktProofID(proof), truth, h.RevisionNumber,
-		h.RevisionHeight, hxs(signer)), fmt.Sprintf("%s %s S=%d", r, delta, st))
+	// known behaviour of the packet contract (C03 side finding, out of scope here): OnAcknowledgePacket reverts for an
+	// error acknowledgement of a packet without transfer data (nothing to refund) — such a packet stays unacknowledged
+	evmOut := "111"
+	var da0 packettypes.Acknowledgement
+	if len(p.TransferData) == 0 && da0.ABIDecode(ackBz) == nil && da0.Code != 0 {
+		evmOut = "110"
+		w.r.Count("ack.onack-reverts-by-construction")
+	}
+	w.op(fmt.Sprintf("ackm %s %d %s %s %s %s %d %d %s %s", hxs(c.name), now, id, aid, pktProofID(proof), truth, h.RevisionNumber,
+		h.RevisionHeight, hxs(signer), evmOut), fmt.Sprintf("%s %s S=%d", r, delta, st))
+	if sr, known := w.byEnc[string(enc0(p))]; known && sr.cbErr && sr.src == c {
+		w.r.Count("ack.callback-error." + r)
+	}
 	w.r.Count("ack." + tag + "." + r)
 	w.r.Count("ack." + r)
+	if ok && (pktHasUpper(p.SrcChain) || pktHasUpper(p.DstChain)) {
+		w.r.Count("ack.accepted.mixed-case-name")
+	}
 	ck := hx(host.PacketCommitmentKey(p.SrcChain, p.DstChain, p.Sequence))
 	enc, _ := p.ABIPack()
 	if ok {
@@ -836,4 +975,9 @@ func (w *pktWorld) stepOracle(before, after map[string]string, acceptedAckOfComm
 			}
 		}
 	}
+}
+
+func enc0(p packettypes.Packet) []byte {
+	b, _ := p.ABIPack()
+	return b
 }
